@@ -16,8 +16,8 @@ META = {
     "assumptions": ["oracle is the statement: contiguity, containment, pairwise disjointness, ancilla coverage minus one slot per 0-round block, translation by the cycle length, estimate inverts size = repetitions x cycle"],
     "exhaustive": {"quick": True, "thorough": True},
     "floors": {
-        "quick": {"experiments": 2500, "kernels_checked": 9000, "ancilla_coverage_checks": 3000, "translation_checks": 2500, "estimate_checks": 2500},
-        "thorough": {"experiments": 19000, "kernels_checked": 70000},
+        "quick": {"experiments": 2500, "kernels_checked": 9000, "ancilla_coverage_checks": 3000, "translation_checks": 2500, "estimate_checks": 2500, "large_experiments": 50, "large_beyond_int32": 30, "large_getter_reads": 1000},
+        "thorough": {"experiments": 19000, "kernels_checked": 70000, "large_experiments": 500, "large_beyond_int32": 300},
     },
 }
 
@@ -39,6 +39,7 @@ def enumerate_cases(tier: str) -> List[Dict[str, Any]]:
 def plan(tier: str, seed: int) -> List[Dict[str, Any]]:
     n = len(enumerate_cases(tier))
     shards = [{"kind": "enum", "tier": tier, "part": i, "parts": 16, "hashseed": 0, "total": n} for i in range(16)]
+    shards.append({"kind": "large", "n": 60 if tier == "quick" else 600, "seed": common.seed_base(seed, 121), "hashseed": 0})
     if tier == "thorough":
         shards.append({"kind": "random", "n": 3000, "seed": common.seed_base(seed, 12), "hashseed": 0})
     return shards
@@ -164,8 +165,95 @@ def check_case(case: Dict[str, Any], acc: Acc):
             pass
 
 
+LARGE_ROUNDS = [0, 1, 3, 10 ** 6, 2 * 10 ** 6 + 1, 5 * 10 ** 8, 2 ** 31 - 3, 2 ** 31 + 5]
+LARGE_REPS = [1, 2, 7, 1500, 3000]
+
+
+def check_large(case: Dict[str, Any], acc: Acc):
+    """Large magnitudes (indices beyond 2**31): only getters whose result size does not grow with the round count are read."""
+    import numpy as np
+    from qce_circuit.connectivity.intrf_channel_identifier import QubitIDObj
+    from qce_circuit.structure.acquisition_indexing.kernel_repetition_code import RepetitionExperimentKernel
+    from qce_circuit.structure.acquisition_indexing.intrf_stabilizer_index_kernel import StateKey
+    rounds, heralded, reps = case["rounds"], case["heralded"], case["reps"]
+    data_names, anc_names = ID_SETS[case["ids"]]
+    data = [QubitIDObj(n) for n in data_names]
+    anc = [QubitIDObj(n) for n in anc_names]
+    wrap = {"experiment": dict(case, large=True)}
+    acc.count("large_experiments")
+    kernel = RepetitionExperimentKernel(rounds=rounds, heralded_initialization=heralded, qutrit_calibration_points=True,
+                                        involved_data_qubit_ids=data, involved_ancilla_qubit_ids=anc, experiment_repetitions=reps)
+    kernels = kernel.indexing_kernels
+    prev_stop = None
+    for k in kernels:
+        if k.kernel_length != k.stop_index - k.start_index + 1 or k.stop_index < k.start_index:
+            acc.finding("kernel/length", "kernel length is not stop - start + 1 (or is empty)", wrap, {"start": int(k.start_index), "stop": int(k.stop_index)})
+        if prev_stop is not None and k.start_index != prev_stop + 1:
+            acc.finding("kernel/not-contiguous", "a kernel does not start right after the previous one", wrap, {"start": int(k.start_index), "previous_stop": int(prev_stop)})
+        prev_stop = k.stop_index
+    cycle = int(kernel.kernel_cycle_length)
+    if cycle != int(kernels[-1].stop_index) - int(kernels[0].start_index) + 1:
+        acc.finding("kernel/cycle-length", "cycle length is not the span of the kernels", wrap, {"cycle": cycle})
+    total = reps * cycle
+    if total > 2 ** 31:
+        acc.count("large_beyond_int32")
+    ck = kernels[-1]
+    for q in data + anc:
+        for n in rounds:
+            rk = kernels[rounds.index(n)]
+            for name, own in (("get_heralded_cycle_acquisition_indices", rk.get_heralded_measurement_index(q)),
+                              ("get_projected_cycle_acquisition_indices", rk.get_final_measurement_index(q))):
+                own = [int(v) for v in own]
+                if any(not int(rk.start_index) <= v <= int(rk.stop_index) for v in own):
+                    acc.finding("category/outside-kernel", "a heralded/final index lies outside its kernel", wrap, {"qubit": q.id, "n": n})
+                arr = np.asarray(getattr(kernel, name)(qubit_id=q, cycle_stabilizer_count=n))
+                acc.count("large_getter_reads")
+                if arr.size == 0:
+                    if own:
+                        acc.finding("translation/shape", f"{name} returns nothing although the kernel lists indices", wrap, {"qubit": q.id, "n": n})
+                    continue
+                if arr.shape[0] != reps:
+                    acc.finding("translation/shape", f"{name} does not return one row per experiment repetition", wrap, {"shape": list(arr.shape)})
+                    continue
+                rows = [[int(v) for v in arr[r]] for r in sorted({0, 1, reps // 2, reps - 1}) if r < reps]
+                rsel = [r for r in sorted({0, 1, reps // 2, reps - 1}) if r < reps]
+                if rows[0] != own:
+                    acc.finding("translation/first-repetition", f"{name}: first repetition differs from the kernel's own indices", wrap, {"qubit": q.id, "n": n})
+                for r, row in zip(rsel, rows):
+                    if row != [v + r * cycle for v in rows[0]]:
+                        acc.finding("translation/offset", f"{name}: repetition {r} is not repetition 0 translated by r x cycle length", wrap,
+                                    {"qubit": q.id, "n": n, "row": row[:3], "expected": [v + r * cycle for v in rows[0]][:3]})
+                        break
+                lo, hi = int(arr.min()), int(arr.max())
+                if lo < 0 or hi >= total:
+                    acc.finding("category/outside-range", f"{name} returns an index outside [0, repetitions x cycle length)", wrap, {"min": lo, "max": hi, "total": total})
+        for state in (StateKey.STATE_0, StateKey.STATE_1, StateKey.STATE_2):
+            for name in ("get_projected_calibration_acquisition_indices", "get_heralded_calibration_acquisition_indices"):
+                arr = np.asarray(getattr(kernel, name)(qubit_id=q, state=state))
+                acc.count("large_getter_reads")
+                if arr.size and arr.size % reps == 0:
+                    rows2 = arr.reshape(reps, arr.size // reps)
+                    first = [int(v) for v in rows2[0]]
+                    for r in sorted({0, 1, reps // 2, reps - 1}):
+                        if r < reps and [int(v) for v in rows2[r]] != [v + r * cycle for v in first]:
+                            acc.finding("translation/offset", f"{name}: repetition {r} is not repetition 0 translated by r x cycle length", wrap, {"qubit": q.id})
+                            break
+                    if any(not int(ck.start_index) <= v <= int(ck.stop_index) for v in first):
+                        acc.finding("category/outside-kernel", "calibration getter returns an index outside the calibration kernel", wrap, {"qubit": q.id})
+                    if int(arr.min()) < 0 or int(arr.max()) >= total:
+                        acc.finding("category/outside-range", f"{name} returns an index outside [0, repetitions x cycle length)", wrap, None)
+                elif arr.size:
+                    acc.finding("translation/shape", f"{name} does not return the same number of indices per repetition", wrap, {"size": int(arr.size)})
+    est = RepetitionExperimentKernel.estimate_experiment_repetitions(rounds=rounds, heralded_initialization=heralded, qutrit_calibration_points=True, dataset_size=total)
+    if est != reps:
+        acc.finding("estimate/wrong", "estimate_experiment_repetitions does not invert size = repetitions x cycle length", wrap, {"estimate": int(est), "reps": reps, "cycle": cycle})
+
+
 def check_program(case: Dict[str, Any], acc: Acc):
-    check_case(case, acc)
+    if case.get("large"):
+        check_large(case, acc)
+    else:
+        check_case(case, acc)
 
 
 def run_shard(shard: Dict[str, Any]) -> Acc:
@@ -181,6 +269,13 @@ def run_shard(shard: Dict[str, Any]) -> Acc:
         acc.count("enumerated_space_size", shard["total"] if shard["part"] == 0 else 0)
         return acc
     rng = random.Random(shard["seed"])
+    if shard["kind"] == "large":
+        for i in range(shard["n"]):
+            length = rng.randint(1, 3)
+            case = {"rounds": rng.sample(LARGE_ROUNDS, length), "heralded": rng.random() < 0.5, "reps": rng.choice(LARGE_REPS), "ids": rng.randrange(len(ID_SETS)), "large": True}
+            acc.case(bp.phash(case), True, sample=case if i < 2 else None)
+            common.guarded(acc, check_large, case, acc, case={"experiment": case})
+        return acc
     for i in range(shard["n"]):
         length = rng.randint(1, 12)
         case = {"rounds": rng.sample(range(0, 60), length), "heralded": rng.random() < 0.5, "reps": rng.choice([1, 2, 3, 7]), "ids": rng.randrange(len(ID_SETS))}
@@ -191,6 +286,6 @@ def run_shard(shard: Dict[str, Any]) -> Acc:
 
 def replay(shard: Dict[str, Any]) -> Acc:
     acc = Acc()
-    check_case(shard["case"]["experiment"], acc)
+    check_program(shard["case"]["experiment"], acc)
     acc.case("replay", True, sample=shard["case"])
     return acc
